@@ -19,8 +19,11 @@ def check(tier):
     run = Run("C13", tier)
     res = core.tlc("mc/MC_C13.tla", "mc/MC_C13.cfg", workers=8, coverage=True, timeout=1800, xmx="8g")
     core.check_coverage(res)
-    run.add_tlc(res, "Layout: the comment scanner consumes every gap of the gap grammar up to 9 symbols; plans = forms x token-class pairs")
+    run.add_tlc(res, "Layout: the comment scanner consumes every gap of the gap grammar up to 9 symbols (slashes and asterisks as body characters included: the overlaps /*/ **/ */* //*); plans = forms x token-class pairs; every complete gap is emitted")
     plans = res.printed("CASE")
+    gaps = res.printed("GAP")
+    if len(gaps) < 10000:
+        raise ToolError(f"the gap grammar emitted only {len(gaps)} gaps")
     sets = c02.generate(run, tier, **SIM[tier])
     files = sorted(glob.glob(os.path.join(core.REPO, "rasn-compiler-tests/tests/modules/*")))
     files = [f for f in files if os.path.getsize(f) < 12000]
@@ -37,12 +40,16 @@ def check(tier):
     core.write_ndjson(plans_p, plans)
     core.write_ndjson(sets_p, sets)
     open(files_p, "w").write("\n".join(files) + "\n")
-    core.vharness(["c13", "--cases", plans_p, "--inputs", sets_p, "--files", files_p, "--trace", trace_p], threads=12, timeout=5000)
+    gaps_p = run.path("gaps.ndjson")
+    core.write_ndjson(gaps_p, gaps)
+    core.vharness(["c13", "--cases", plans_p, "--inputs", sets_p, "--files", files_p, "--gaps", gaps_p, "--gaps-all-every", "50" if tier == "quick" else "5",
+                   "--trace", trace_p], threads=12, timeout=5000)
     events = core.read_ndjson(trace_p)
     consumed, verdicts = core.validate_trace("trace/Trace_C13.tla", trace_cfg(run), trace_p, shards=4 if tier == "quick" else 16, timeout=3000)
     run.judge(events, verdicts, consumed)
     run.cov["evaluations"] = len(events)
     run.cov["plans"] = len(plans)
+    run.cov["generated_gaps_replayed"] = len(gaps)
     run.cov["class_pairs_found"] = len({(e["cl"], e["cr"]) for e in events if e["mode"] == "single boundary"})
     run.cov["distinct_nontrivial"] = len({(e["form"], e["cl"], e["cr"], e["input"], e["mode"]) for e in events if e["mode"] != "no such boundary"})
     run.cov["per_mode"] = {}
